@@ -21,4 +21,5 @@ for d in dirs:
         print(d, res or 'silent (ok)')
     finally:
         subprocess.run(['git', '-C', '/repo', 'checkout', '--', '.'])
+        subprocess.run(['git', '-C', '/repo', 'clean', '-fdq', '--', 'qubovert'])
 subprocess.run(['git', '-C', '/verif', 'checkout', '--', 'evidence'], capture_output=True)
